@@ -109,6 +109,17 @@ func failsClosed(info *types.Info, body []ast.Stmt) bool {
 			}
 		}
 		return false
+	case *ast.AssignStmt:
+		// `res, err = nil, ErrX`: the clause's outcome is a non-nil error in the function's error variable
+		if len(s.Lhs) != len(s.Rhs) {
+			return false
+		}
+		for i, l := range s.Lhs {
+			if lt := info.TypeOf(l); lt != nil && types.Identical(lt, types.Universe.Lookup("error").Type()) {
+				return !info.Types[s.Rhs[i]].IsNil()
+			}
+		}
+		return false
 	case *ast.ExprStmt:
 		if c, ok := s.X.(*ast.CallExpr); ok {
 			if id, ok := c.Fun.(*ast.Ident); ok && id.Name == "panic" {
